@@ -202,6 +202,29 @@ class PortInst:
         return outs
 
 
+class MonitorOnlyInst(PortInst):
+    """Composite real-code instance without a Lean model of its own (adapter chains built by
+    `SoCBusHandler.add_adapter`): co-simulated against the driver's `unit` machine (no compared outputs); only the
+    property monitors judge it."""
+
+    def __init__(self, *a, **kw):
+        PortInst.__init__(self, *a, **kw)
+        self.lean_open = "unit"
+        self.qual = []
+
+    def sample(self):
+        PortInst.sample(self)
+        return []
+
+    def model_letter(self, letter):
+        return []
+
+    def sig_dict(self, letter, outs):
+        d = dict(zip(self.in_names, letter))
+        d.update(self.last_seen)
+        return d
+
+
 class NullMonitor:
     def observe(self, letter, outs):
         return None
@@ -467,6 +490,33 @@ class CsrPartner:
         self.datr = self.mem.read_word(req["adr"] * self.nb, self.nb)
 
 
+class AxiSinglePartner(AxlPartner):
+    """AXI4 memory slave for single-beat bursts (what Wishbone2AXI / AXILite2AXI issue): an `AxlPartner` that
+    returns the ids and sets `r.last`."""
+
+    def __init__(self, nb, **kw):
+        AxlPartner.__init__(self, nb, **kw)
+        self.wids, self.rids = [], []
+
+    def drive(self, rng):
+        d = AxlPartner.drive(self, rng)
+        d["bid"] = self.wids[0] if (d["bvalid"] and self.wids) else rng.getrandbits(1)
+        d["rid"] = self.rids[0] if (d["rvalid"] and self.rids) else rng.getrandbits(1)
+        d["rlast"] = 1 if d["rvalid"] else rng.getrandbits(1)
+        return d
+
+    def observe(self, req, drv):
+        if drv["bvalid"] and req["bready"] and self.wids:
+            self.wids.pop(0)
+        if drv["rvalid"] and req["rready"] and self.rids:
+            self.rids.pop(0)
+        if req["awvalid"] and drv["awready"]:
+            self.wids.append(req["awid"])
+        if req["arvalid"] and drv["arready"]:
+            self.rids.append(req["arid"])
+        AxlPartner.observe(self, req, drv)
+
+
 class Env:
     """Couples a master automaton and a partner automaton to an open bridge instance.  The partner of a
     Wishbone slave side may answer combinationally (it sees the bridge's request of the same cycle, obtained
@@ -484,7 +534,7 @@ class Env:
             outs = inst.peek(part)
             req = {f: outs["s." + f] for f in WB_M}
             sd = self.partner.respond(rng, req)
-        elif self.s_kind == "axl":
+        elif self.s_kind in ("axl", "axi"):
             sd = self.partner.drive(rng)
         else:
             sd = self.partner.drive(rng) if self.partner is not None else {}
@@ -1011,7 +1061,8 @@ class BridgeMonitor:
               "axi": lambda nb, amap: AxiMemOracle(nb, amap, check_data=check_data),
               "ahb": lambda nb, amap: AhbMemOracle(nb, amap),
               "wb": lambda nb, amap: WbMemOracle(nb, amap)}[m_kind]
-        sk = (lambda nb, amap: AxlMemOracle(nb, amap)) if s_kind == "axl" else (lambda nb, amap: WbMemOracle(nb, amap))
+        sk = {"axl": lambda nb, amap: AxlMemOracle(nb, amap), "axi": lambda nb, amap: AxiMemOracle(nb, amap),
+              "wb": lambda nb, amap: WbMemOracle(nb, amap), None: None}[s_kind]
         self.m_or = mk(m_nb, m_amap)
         self.s_or = sk(s_nb, s_amap) if s_kind else None
         self.prev = None
@@ -1075,8 +1126,8 @@ class BridgeMonitor:
         g = self._stab(self.m_kind, pm, m, True)
         if g:
             return self._disarm("master: " + g)
-        if s is not None and self.s_kind == "axl":
-            g = self._stab("axl", ps, s, False)
+        if s is not None and self.s_kind in ("axl", "axi"):
+            g = self._stab(self.s_kind, ps, s, False)
             if g:
                 return self._disarm("partner: " + g)
         if s is not None:
